@@ -486,7 +486,7 @@ def r36_4(ctx, T):
                 k1 = next((ast.unparse(k.value) for k in node.keywords if k.arg == 'key'), ast.unparse(node.args[1]) if len(node.args) > 1 else None)
                 k2 = next((ast.unparse(k.value) for k in arg.keywords if k.arg == 'key'), None)
                 ok = k1 == k2
-            ctx.ob('R36.4', 'groupby:%d' % node.lineno, ok, 'groupby gets its input sorted by the grouping key' if ok else
+            ctx.ob('R36.4', 'groupby#%d' % n, ok, 'groupby gets its input sorted by the grouping key' if ok else
                    'itertools.groupby at line %d is applied to a list that is not sorted by the grouping key: equal keys that are not adjacent form several groups, and when the '
                    'groups are stored per key only the last one survives - the other findings lose their entry' % node.lineno, '%s:%d' % (SCRIPT, node.lineno))
         if isinstance(node, ast.DictComp):
@@ -495,7 +495,7 @@ def r36_4(ctx, T):
             if gen is not None and 'error' in ast.unparse(gen.iter) and isinstance(node.key, ast.Subscript) and isinstance(node.value, ast.Name) and \
                     isinstance(gen.target, ast.Name) and node.value.id == gen.target.id:
                 n += 1
-                ctx.ob('R36.4', 'dictcomp:%d' % node.lineno, False, 'the dict comprehension at line %d keeps one finding per %s' % (node.lineno, ast.unparse(node.key)),
+                ctx.ob('R36.4', 'dictcomp#%d' % n, False, 'the dict comprehension at line %d keeps one finding per %s' % (node.lineno, ast.unparse(node.key)),
                        '%s:%d' % (SCRIPT, node.lineno))
     ctx.ob('R36.4', 'collapse-census', True, '%d grouping constructs over finding records examined' % n, SCRIPT)
 
